@@ -187,6 +187,10 @@ def _json_value(cid: int, text: str):
             total += int(part)
         elif part.startswith('0x'):
             total += int(part, 16)
+        elif re.match(r'^unknown [a-z -]+ \d+$', part):
+            # ExaBGP's rendering of a value with bits it has no name for: the named bits, then "unknown tcp flag type
+            # <the whole value>" - the number is what counts
+            return int(part.rsplit(' ', 1)[1])
         else:
             raise ValueError(f'unknown value text {part!r}')
     return total
